@@ -249,4 +249,39 @@ theorem C18_write_back_keeps (w : World V) (s : XSpec) (q : Nat) (f0 : File V) (
     denote_notin (xCfgOf w.inst s σ args) (xCfgOf w.inst s σ args).nodes (xCfgOf w.inst s σ args).init x hnot
   rw [hd]; exact hinit
 
+/-- **what is in the file is not executed**: whatever executor reads a file (with or without a selection, `cache_deps_of`
+    targets, a `cache_in` of its own), a node whose result the file holds is never entered — also when that node is one of the
+    executor's own `cache_deps_of` targets. -/
+theorem C18_file_entries_are_not_executed (w : World V) (s : XSpec) (q : Nat) (f0 : File V) (args : List V)
+    (hfrom : s.fromCache = some q) (hfile : w.files q = some f0) (n : Node) (v : V) (hn : f0 n = some v) :
+    xStart w s = some (overlay w.inst.res f0) ∧ n ∉ entered (xCfgOf w.inst s (overlay w.inst.res f0) args) := by
+  refine ⟨by simp [xStart, hfrom, hfile], ?_⟩
+  intro hmem
+  have hnodes : n ∈ (xCfgOf w.inst s (overlay w.inst.res f0) args).nodes := (List.mem_filter.mp hmem).1
+  have hnone : ((xCfgOf w.inst s (overlay w.inst.res f0) args).init n).isNone = true := (List.mem_filter.mp hnodes).2
+  have hinit : (xCfgOf w.inst s (overlay w.inst.res f0) args).init n
+      = (match argOf w.inst.dag.params args n with | some a => some a | none => overlay w.inst.res f0 n) :=
+    bindArgs_eq w.inst.dag.params args (overlay w.inst.res f0) n
+  rw [hinit] at hnone
+  cases ha : argOf w.inst.dag.params args n with
+  | some a => rw [ha] at hnone; cases hnone
+  | none => rw [ha] at hnone; simp [overlay, hn] at hnone
+
+/-- **an established setup value survives any executor run**: whatever file the executor starts from (a file written by
+    ANOTHER instance may hold a different value for the node — it is used during that one run), the instance keeps the
+    value it has. -/
+theorem xRun_keeps_established (w : World V) (o : XObj) (args : List V) (n : Node) (v : V) (h : w.inst.res n = some v) :
+    (xRun w o args).1.inst.res n = some v := by
+  unfold xRun
+  by_cases hu : o.used = true
+  · simp [hu, h]
+  · simp only [hu, if_false, Bool.false_eq_true]
+    cases xStart w o.spec with
+    | none => exact h
+    | some start =>
+      simp only []
+      split
+      · simp [copyBack, h]
+      · exact h
+
 end VM
